@@ -96,6 +96,9 @@ def component(rng, comp, uid, rich, day=None, summary=None, fold=True):
         if comp == "VEVENT" and rng.random() < 0.5:
             L.append("RRULE:" + rng.choice(["FREQ=WEEKLY;COUNT=3", "FREQ=DAILY;COUNT=5", "FREQ=MONTHLY;COUNT=2;BYMONTHDAY=%d" % day]))
         if rng.random() < 0.5:
+            if rng.random() < 0.5:
+                # a repeated property, not in sorted order: the order is part of what is stored
+                L.append("ATTENDEE;CN=Zed:mailto:zed@example.com")
             L.append('ATTENDEE;CN="Doe, Jane";ROLE=REQ-PARTICIPANT:mailto:jane@example.com')
         if rng.random() < 0.5:
             L.append("X-SIM-PROP;X-P=1:val %d" % rng.randint(0, 999))
